@@ -225,6 +225,7 @@ def run_sync(case, ctx):
     policy, method = case['policy'], case['method']
     explicit = case.get('explicit')
     before = snap_ts(reg)
+    m_arg = [method] if (case.get('method_as_list') and method) else method      # one list object holding the fill method: every series of the collection is filled from it
     index = joint(specs, policy, explicit)
     api = case['api']
     if policy == 'explicit':
@@ -233,11 +234,14 @@ def run_sync(case, ctx):
     else:
         idx_arg = {'ij': 'ij', 'oj': 'oj', 'lj': 'lj', 'rj': 'rj'}[policy] if not case.get('long_names') else {'ij': 'inner', 'oj': 'outer', 'lj': 'left', 'rj': 'right'}[policy]
     if api == 'df_sync':
-        st, res = ctx.call(df_sync, x, idx_arg, method, case.get('columns', 'ij') if case.get('multi') else False)
+        st, res = ctx.call(df_sync, x, idx_arg, m_arg, case.get('columns', 'ij') if case.get('multi') else False)
     elif api == 'df_reindex':
-        st, res = ctx.call(df_reindex, x, idx_arg, method)
+        st, res = ctx.call(df_reindex, x, idx_arg, m_arg)
     else:
         raise HarnessError(api)
+    if isinstance(m_arg, list):
+        ctx.check('inputs_unmodified', m_arg == [method], lambda: '%s consumed / edited the list of fill methods it was given: %r -> %r' % (api, [method], m_arg))
+        ctx.cls('fill_method_given_as_a_list')
     if st != 'ok':
         ctx.ev('joint_index'); ctx.fail('joint_index', '%s(%r, %r, %r) raised %s' % (api, case['x'], idx_arg if isinstance(idx_arg, str) else 'explicit', method, core.exc_str(res)))
         return
@@ -630,6 +634,8 @@ def gen_case(rng):
                 t_['share_index'] = True
                 t_.pop('intcols', None)
     case = {'kind': 'sync', 'x': x, 'policy': policy, 'method': method, 'intraday': intraday, 'api': api, 'multi': multi, 'long_names': rng.random() < 0.3}
+    if method and rng.random() < 0.3:
+        case['method_as_list'] = True
     if multi:
         case['columns'] = rng.choice(['ij', 'oj'])
     if policy == 'explicit':
